@@ -590,9 +590,13 @@ func Check(env *core.Env, rep *core.Report) *core.Result {
 		}
 	}
 	// binding self-test: a log with the context's before hook doubled must be flagged
+	// (taken from a row that TLC accepted)
 	selftest := map[string]interface{}{}
-	for _, i := range idx {
+	for j, i := range idx {
 		r := rows[i]
+		if _, bad := v.Bad[strconv.Itoa(j+1)]; bad {
+			continue
+		}
 		for p, t := range r.Log {
 			if t["k"] == "cb" {
 				c := r
